@@ -3,7 +3,7 @@
 From Verif Require Import Base C06_Model.
 Open Scope Z_scope.
 
-(* ---- the Returning defect: witnesses ---- *)
+(* ---- the Returning defect (fixed in /repo by 6cb0e65): witnesses against the OLD MergeClause body ---- *)
 (* the lead's witness: three Returning merges -> Session -> two children add a column each *)
 Definition wit_returning : list step :=
   [Derive 0 (OReturning (Some ([10], 1%nat))); Derive 1 (OReturning (Some ([11], 1%nat)));
@@ -38,18 +38,18 @@ Proof.
 Qed.
 
 Lemma returning_refuted :
-  exists hist, ~ isolated (run_hist go_grow tree_md hist).
+  exists hist, ~ isolated (run_hist go_grow old_md hist).
 Proof.
   exists wit_returning. intro H. apply isolatedb_spec in H. vm_compute in H. discriminate H.
 Qed.
 
 Lemma returning_refuted_any_grow : forall grow,
-  exists hist, ~ isolated (run_hist grow tree_md hist).
+  exists hist, ~ isolated (run_hist grow old_md hist).
 Proof.
   intro grow. exists wit_returning_cap. intro H. apply isolatedb_spec in H. vm_compute in H. discriminate H.
 Qed.
 
 (* with the proposed patch (copy before append) the same histories are isolated *)
 Lemma returning_witness_patched :
-  isolated (run_hist go_grow copy_md wit_returning) /\ isolated (run_hist go_grow copy_md wit_returning_cap).
+  isolated (run_hist go_grow tree_md wit_returning) /\ isolated (run_hist go_grow tree_md wit_returning_cap).
 Proof. split; apply isolatedb_spec; vm_compute; reflexivity. Qed.
